@@ -112,6 +112,30 @@ def main():
                 again = "<%s>" % type(e).__name__
             if again != vals[k]:  # ... but what was written before is read with the codec that wrote it
                 violations.append({"what": "%s: read back with a codec registered after the write" % k})
+        # a second user codec for the same type supersedes the first one for WRITING; what the first one wrote stays readable
+        # through its reference (a format migration, or a notebook cell registering codecs again)
+        before = st.fetch_blob("s_after")
+
+        class LowerStrCodec(UpperStrCodec):
+            def ref(self):
+                return ProtocolRef("test.lower_string")
+
+            def serialize_into(self, blob, loc):
+                with open(str(loc), "wb") as f:
+                    f.write(blob.lower().encode())
+
+        for round_ in (1, 2):
+            codec_registry().add_codec(LowerStrCodec())
+            st.store_blob("s_third_%d" % round_, "Third")
+            for k in ("s_after", "s_ascii", "s_uni", "s_third_%d" % round_):
+                evals += 1
+                try:
+                    again = st.fetch_blob(k)
+                except BaseException as e:
+                    again = "<%s: %s>" % (type(e).__name__, str(e)[:80])
+                want = before if k == "s_after" else ("third" if k.startswith("s_third") else vals[k])
+                if again != want:
+                    violations.append({"what": "%s: after registering another codec for str (%d time(s)) it reads back as %r, it was written as %r by a codec that is still registered under its reference" % (k, round_, again, want)})
         # fresh process (default registry): everything written with built-in codecs is readable
         code = (
             "import sys, json, pickle\nfrom dds.store import LocalFileStore\n"
